@@ -10,4 +10,5 @@ INVARIANT UpIsDotsStar
 INVARIANT ExpansionsIncluded
 INVARIANT DevOnlyRemoves
 INVARIANT ProxyEndsInTarget
+INVARIANT ZeroRepetition
 CHECK_DEADLOCK FALSE
